@@ -186,7 +186,57 @@ def stacked_scenarios(tier):
     return [mk1("boss-reorder-buffer-dilate-N", cfgd, max_depth=200, max_states=150000 if q else 3000000)]
 
 
+def boss_dilate_phases(chk):
+    """the k-th control message of a long session (many generations): every phase dilate-N, N up to 130, arriving in order or
+    permuted inside a window of 3, reaches the Dilator exactly once and in order"""
+    import itertools
+    from .w1common import CODE
+    from ..env.mailbox import MailboxWorld
+    from ..env.patches import CTX
+    viol = []
+    keys = set()
+    n = 0
+    cl = [dict(threads=[[("set_code", CODE), ("dilate",)]], dilation=True, mode="deferred"),
+          dict(threads=[[("set_code", CODE), ("dilate",)]], dilation=True, mode="deferred")]
+    TOP = 130
+    for perm in itertools.permutations(range(3)):
+        n += 1
+        w = MailboxWorld(dict(clients=cl, net=True, explored=("down", "up", "api", "connect")), seed())
+        for _ in range(500):
+            en = w.enabled()
+            if not en:
+                break
+            w.apply(en[0])
+        b = w.clients[0].boss
+        got = []
+        b._D.received_dilate = lambda plaintext: got.append(bytes(plaintext))
+        first = b._next_rx_dilate_seqnum
+        order = []
+        for base in range(first, TOP, 3):
+            order.extend(base + k for k in perm if base + k < TOP)
+        CTX.world = w
+        CTX.client = "c0"
+        for x in order:
+            try:
+                b.got_message("dilate-%d" % x, b"m%d" % x)
+            except Exception as e:
+                viol.append(dict(oracle="dilate-order", sig="raises:%s" % type(e).__name__, msg="Boss.got_message('dilate-%d') raised %r" % (x, e)))
+                break
+        exp = [b"m%d" % x for x in range(first, TOP)]
+        keys.add((perm, got == exp))
+        if got != exp:
+            missing = [x for x in range(first, TOP) if b"m%d" % x not in got]
+            viol.append(dict(oracle="dilate-order", sig="long-session:%s" % ("lost" if missing else "order"),
+                             msg="dilate-%d..dilate-%d delivered to the Boss (window order %r): the Dilator received %d of %d, first missing: %r" % (
+                                 first, TOP - 1, perm, len(got), len(exp), missing[:3]), case=dict(perm=list(perm))))
+    chk.add_enum("boss-dilate-phase-numbers", n, keys, "after a real key exchange, phases dilate-N for every N up to 129 are handed to the real Boss in "
+                 "order and in all 6 orders inside windows of 3 (crossing the 9/10 and 99/100 digit boundaries): the Dilator must receive each "
+                 "exactly once, in order", [[0, 1, 2], [2, 1, 0]], viol)
+
+
 def run(chk):
+    if not getattr(chk, "only", None) or chk.only == "boss-dilate-phase-numbers":
+        boss_dilate_phases(chk)
     chk.assumptions += [
         "in the W3 scenarios the mailbox is two FIFO queues (one per sender) of dilate-N plaintexts; the Boss reorder buffer in front of the "
         "Dilator is exercised by the stacked scenario boss-reorder-buffer-dilate-N (real mailbox server, reordered and duplicated message events)",
@@ -202,6 +252,15 @@ def run(chk):
 
 
 def replay(body):
+    if body.get("scenario") == "boss-dilate-phase-numbers":
+        class _C:
+            def add_enum(self, name, n, keys, rule, samples, violations=(), extra=None):
+                self.v = list(violations)
+        c = _C()
+        boss_dilate_phases(c)
+        for x in c.v:
+            print("VIOLATION-REPLAYED oracle=%s sig=%s: %s" % (x["oracle"], x["sig"], x["msg"]))
+        return 1 if c.v else 0
     for sc in stacked_scenarios(body.get("tier", "quick")):
         if sc.name == body["scenario"]:
             from .w1common import replay as _r
